@@ -201,15 +201,22 @@ def check_case(case):
         tags.append("start_inside")
         if np.max(np.abs(out - x0)) > 1e-15 * max(1.0, float(np.max(np.abs(x0)))):
             v.append(("fixed_point", "start already in all sets but moved by %.3g" % float(np.max(np.abs(out - x0)))))
-    elif case["tol"] <= 1e-8 and case["max_iter"] >= 100 and not stopped:
+    elif case["max_iter"] >= 100 and not stopped and case["tol"] <= 1e-8:
         tags.append("optimality_eligible_but_capped")
-    elif stopped and case["tol"] <= 1e-8:
+    elif stopped:
         ref, cert = reference_projection(n, salt, case["sel"], case["start"])
         if cert <= 1e-7:
             tags.append("optimality_checked")
-            if np.linalg.norm(out - ref) > 1e-3:
-                v.append(("near_optimal", "result is %.3g from the certified projection %s (cert %.1e)" % (
-                    float(np.linalg.norm(out - ref)), ref.tolist(), cert)))
+            err = float(np.linalg.norm(out - ref))
+            if err > 1e-3:
+                # The stopping quantity bounds feasibility, not the distance to the projection.  Two situations in which
+                # the (correct) iteration stops early are recorded as known findings under their own clauses, so that
+                # a violation anywhere else is still reported: a user tolerance looser than 1e-8, and a selection that
+                # contains both nearly parallel half-spaces of the bank (linear convergence rate ~ 1 - 2.5e-5).
+                pair = 3 in case["sel"] and 4 in case["sel"]
+                clause = "near_optimal_loose_tol" if case["tol"] > 1e-8 else ("near_optimal_nearly_parallel" if pair else "near_optimal")
+                v.append((clause, "stopped by its rule (tol=%g, %d sweeps) %.3g from the certified projection %s (cert %.1e)" % (
+                    case["tol"], sweeps, err, ref.tolist(), cert)))
         else:
             tags.append("reference_uncertified")
     if sweeps > 3:
